@@ -409,22 +409,87 @@ pub fn run(tier: &str) -> i32 {
     let v = Verdicts::load("C08");
     let mut ev = Evidence::new("C08", tier, "exploration");
     let stats = Mutex::new(Stats { sequences: 0, commands: 0, cells: BTreeSet::new(), distinct: BTreeSet::new(), samples: vec![] });
-    // $$token cannot be removed by anyone
+    // $$token cannot be removed by anyone: whoever sends it (administrator, database-token session, user session with
+    // every permission), in whatever form a remove can take (the client command, the cluster's own replicate-remove, either
+    // wrapped as a replicated request, spelled with extra blanks), to a primary or to a secondary whose primary executes
+    // what the secondary forwards - afterwards every node still holds the token and still lets a session in with it
+    let mut token_cases = 0u64;
     {
-        let (node, mut adm) = mem_node(&[("db", "none")]);
-        adm.call(&node.dbs, "use-db db tok");
-        let r = adm.call(&node.dbs, "remove $$token");
-        let still = adm.call(&node.dbs, "get $$token");
-        if !r.is_error() || still.pushed != vec!["value tok\n".to_string()] {
-            v.report(json!({"check": "token", "problem": "admin-removed-$$token"}), json!({"reply": r.resp, "after": still.pushed}));
-        }
-        let mut t = Session::new();
-        t.call(&node.dbs, "use-db db tok");
-        let r2 = t.call(&node.dbs, "remove $$token");
-        if !r2.is_error() {
-            v.report(json!({"check": "token", "problem": "non-admin-removed-$$token"}), json!({"reply": r2.resp}));
+        let forms = ["remove $$token", "remove $$token ", "remove  $$token", "replicate-remove db $$token", "rp 9 remove $$token", "rp 9 replicate-remove db $$token", "replicate-remove db  $$token", "remove $$token;remove $$token"];
+        for secondary in [false, true] {
+            for who in ["administrator", "administrator-without-a-database", "database-token", "user-with-every-permission"] {
+                for form in forms {
+                    token_cases += 1;
+                    let (node, mut adm) = mem_node(&[("db", "none")]);
+                    let (up, mut upadm) = mem_node(&[("db", "none")]);
+                    for (n, a) in [(&node, &mut adm), (&up, &mut upadm)] {
+                        a.call(&n.dbs, "use-db db tok");
+                        a.call(&n.dbs, "create-user u utok");
+                        a.call(&n.dbs, "set-permissions u rwix *");
+                    }
+                    let mut link_rx = None;
+                    if secondary {
+                        let (tx, rx) = futures::channel::mpsc::channel::<String>(10_000);
+                        node.dbs.add_cluster_member(nundb::bo::ClusterMember { name: "10.1.1.1:3014".to_string(), role: nundb::bo::ClusterRole::Primary, sender: Some(tx) });
+                        node.set_role(nundb::bo::ClusterRole::Secoundary);
+                        link_rx = Some(rx);
+                    }
+                    let mut s = Session::new();
+                    match who {
+                        "administrator" => {
+                            s.call(&node.dbs, "auth admin pwd");
+                            s.call(&node.dbs, "use-db db tok");
+                        }
+                        "administrator-without-a-database" => {
+                            s.call(&node.dbs, "auth admin pwd");
+                        }
+                        "database-token" => {
+                            s.call(&node.dbs, "use-db db tok");
+                        }
+                        _ => {
+                            s.call(&node.dbs, "use-db db u utok");
+                        }
+                    }
+                    let dbs = node.dbs.clone();
+                    let mut replies = vec![];
+                    for part in form.split(';') {
+                        let r = std::panic::catch_unwind(std::panic::AssertUnwindSafe(|| s.call(&dbs, part)));
+                        replies.push(r.map(|r| r.resp).unwrap_or_else(|_| "panicked".into()));
+                    }
+                    // what the secondary hands to its primary is executed there with the authority of a cluster link
+                    let mut forwarded = vec![];
+                    if let Some(rx) = link_rx.as_mut() {
+                        let mut uplink = Session::new();
+                        uplink.call(&up.dbs, "auth admin pwd");
+                        while let Ok(Some(m)) = rx.try_next() {
+                            for line in m.split('\n').filter(|l| !l.trim().is_empty()) {
+                                forwarded.push(line.to_string());
+                                let udbs = up.dbs.clone();
+                                let _ = std::panic::catch_unwind(std::panic::AssertUnwindSafe(|| uplink.call_raw(&udbs, line)));
+                                uplink.drain();
+                            }
+                        }
+                    }
+                    let mut nodes: Vec<(&str, &Node, &mut Session)> = vec![(if secondary { "the-secondary-that-took-the-command" } else { "the-node-that-took-the-command" }, &node, &mut adm)];
+                    if secondary {
+                        nodes.push(("the-primary-behind-the-secondary", &up, &mut upadm));
+                    }
+                    for (at, n, a) in nodes {
+                        let still = a.call(&n.dbs, "get $$token");
+                        let mut fresh = Session::new();
+                        let login = fresh.call(&n.dbs, "use-db db tok");
+                        if still.pushed != vec!["value tok\n".to_string()] || login.is_error() {
+                            v.report(
+                                json!({"check": "token", "problem": "$$token-removed", "sent_by": who, "sent_to": if secondary { "secondary" } else { "primary" }, "gone_at": at, "form": form.split(' ').find(|w| w.starts_with("re")).unwrap_or("remove")}),
+                                json!({"line": form, "replies": replies, "forwarded_to_the_primary": forwarded, "get_$$token_afterwards": still.pushed, "use-db_with_the_token_afterwards": login.resp}),
+                            );
+                        }
+                    }
+                }
+            }
         }
     }
+    ev.set("token_removal_cases", json!(token_cases));
     let tmpl = templates();
     let words: Vec<String> = {
         let mut w = nundb::bo::Request::command_list();
